@@ -45,7 +45,10 @@ func main() {
 	loadDict()
 	switch os.Args[1] {
 	case "dict": // what was mined from $VERIF_REPO
-		b, _ := json.MarshalIndent(map[string]any{"summary": dict.summary(), "origins": dict.origins, "hosts": dict.hosts, "schemes": dict.schemes, "tokens": dict.tokens, "ports": dict.ports, "status": dict.status, "sizes": dict.sizes}, "", " ")
+		b, _ := json.MarshalIndent(map[string]any{"summary": dict.summary(), "novel_strings": dict.any.novel, "novel_ports": dict.ports.novel, "origins": dict.origins.all, "hosts": dict.hosts.all, "schemes": dict.schemes.all, "tokens": dict.tokens.all, "ports": dict.ports.all, "status": dict.status.all, "sizes": dict.sizes.all, "out_of_range_max_age": dict.badMaxAge.all}, "", " ")
+		fmt.Println(string(b))
+	case "dict-baseline": // the raw literals of $VERIF_REPO, to be stored as sim/dict_baseline.json for the pinned tree
+		b, _ := json.Marshal(dictBaseline{Strings: dict.rawStrings, Ints: dict.rawInts})
 		fmt.Println(string(b))
 	case "list":
 		var ids []string
